@@ -563,6 +563,8 @@ def abytes_getitem(it, obj, idx):
         if st is not None:
             raise Unsupported("slice step on symbolic buffer")
         lo = 0 if lo is None else lo
+        # a slice with concrete bounds has at most hi - lo bytes even when the buffer is shorter
+        req = (hi - lo) if (isinstance(lo, int) and isinstance(hi, int) and 0 <= lo <= hi) else None
         # lower bound
         if is_sym(lo) or lo != 0:
             if P.branch(lo < 0):
@@ -594,6 +596,17 @@ def abytes_getitem(it, obj, idx):
                 P.assume(byte_range(b))
                 items.append(b)
             return BytesVal(items)
+        if req is not None and req <= 64 and is_sym(ln):
+            # clamped by the end of a short buffer: the length is one of 0..req-1, fork on it so that the
+            # result has a concrete length (bytes methods such as split/decode need one)
+            for k in range(req + 1):
+                if P.branch(eq(ln, k)):
+                    items = []
+                    for i in range(k):
+                        b = obj.at(lo + i)
+                        P.assume(byte_range(b))
+                        items.append(b)
+                    return BytesVal(items)
         return ABytes(obj.arr, obj.off + lo, ln, obj.name)
     # single index
     if P.branch(Or(idx >= obj.ln, idx < -obj.ln) if is_sym(idx) or is_sym(obj.ln) else (idx >= obj.ln or idx < -obj.ln)):
